@@ -6,6 +6,7 @@ import CruxVerif.Lemmas.Resolve
 import CruxVerif.Model.Hosts
 import CruxVerif.Lemmas.HostLtRun
 import CruxVerif.Lemmas.GCoreHosts
+import CruxVerif.Lemmas.QHosts
 namespace Props.C06
 open M.Rt
 
@@ -97,6 +98,41 @@ theorem poll_keeps_own_slab (d : Nat) (wk : Waker) (p : Nat) (b : Block) (w : Wo
     HL w' ∧ (∀ q, p ≤ q → (w'.cmd q).tasks = (w.cmd q).tasks) :=
   let r := pollAt_hl d wk p b w r w' h hw hb
   ⟨r.1, r.2.2.tasks⟩
+
+/-- SIBLING COMMANDS ARE UNAFFECTED (commands without combinators, i.e. the commands a Core hosts side by side): whatever
+    polling command `c` does — running its tasks, noticing its abort and dropping every task, cancelling tasks through join
+    handles, evicting tasks whose requests were dropped, aborting OTHER commands by name — every other command `d` keeps
+    exactly its task slab, its spawn queue, its queued effects and its queued events, its liveness and its abort-flag cell;
+    its ready queue can only change together with taking its waker (a wake-up), and an abort flag is never cleared.
+    (Step relation `QS` of the scheduling invariant, Lemmas/Q*.lean.) -/
+theorem sibling_commands_unaffected_flat (wk : Waker) (c : Nat) (w : World) (r : NextRes) (w' : World)
+    (h : pollNext wk c w = some (r, w')) (hc : HFc c w) (d : Nat) (hd : d ≠ c) :
+    (w'.cmd d).tasks = (w.cmd d).tasks ∧ (w'.cmd d).spawnQ = (w.cmd d).spawnQ ∧ (w'.cmd d).effects = (w.cmd d).effects ∧
+    (w'.cmd d).events = (w.cmd d).events ∧ (w'.cmd d).alive = (w.cmd d).alive ∧
+    ((w'.cmd d).ready = (w.cmd d).ready ∨ (w'.cmd d).waker = none) ∧ (w.aborted d = true → w'.aborted d = true) := by
+  have q := (pollNext_q wk c w r w' h hc).1
+  have hne : some d ≠ some c := fun e => hd (Option.some.inj e)
+  have o := q.other d hne
+  have oth : (w.modCmd c fun x => { x with waker := some wk }).cmd d = w.cmd d := World.cmd_modCmd_other w c d _ (Ne.symm hd)
+  rw [oth] at o
+  refine ⟨o.1, o.2.1, o.2.2.1, o.2.2.2, ?_, ?_, ?_⟩
+  · rw [q.alive d, oth]
+  · have := q.work d hne; rw [oth] at this; exact this
+  · intro ha
+    refine q.aborted d ?_
+    unfold World.aborted at ha ⊢
+    rw [oth]
+    exact ha
+
+/-- … and the abort itself (`AbortHandle::abort`, from the shell or from a task) touches NO command's tasks, spawn queue or
+    queued outputs — not even the target's: it sets the flag and wakes the host; the cancellation happens at the next poll -/
+theorem abort_only_flags_and_wakes (w : World) (c d : Nat) :
+    ((w.abortCmd c).cmd d).tasks = (w.cmd d).tasks ∧ ((w.abortCmd c).cmd d).spawnQ = (w.cmd d).spawnQ ∧
+    ((w.abortCmd c).cmd d).effects = (w.cmd d).effects ∧ ((w.abortCmd c).cmd d).events = (w.cmd d).events ∧
+    ((w.abortCmd c).cmd d).alive = (w.cmd d).alive :=
+  let q := abortCmd_qs none w c
+  let o := q.other d (fun e => by cases e)
+  ⟨o.1, o.2.1, o.2.2.1, o.2.2.2, q.alive d⟩
 
 /-- STATED, NOT PROVED: after the cancellation point no output is attributable to the cancelled subtree, and the outputs
     of every sibling are those of the run with the cancelled subtree replaced by one that blocks forever
